@@ -58,6 +58,9 @@ def parse_file(text):
         for o, v in cp._sections[s].items():
             if o in LIST_OPTS:
                 v = US.join(x.strip() for x in v.split(","))
+            if o in BOOL_OPTS:
+                # every spelling the INI dialect allows
+                v = {"1": "true", "yes": "true", "true": "true", "on": "true", "0": "", "no": "", "false": "", "off": ""}.get(v.strip().lower(), v)
             if o in OPTS:
                 sect[o] = v
         out[s] = sect
@@ -112,11 +115,35 @@ def run(ctx):
         env.write_usercfg("")
         if env.usercfg_path.exists():
             env.usercfg_path.unlink()
+        # sometimes the user has edited ofxget.cfg by hand: any spelling of a boolean, blanks around list separators
+        file0 = {s_: {o: "" for o in OPTS} for s_ in ("srv1", "srv2")}
+        if rnd.random() < 0.4:
+            text0 = ""
+            for s_ in ("srv1", "srv2"):
+                if rnd.random() < 0.7:
+                    text0 += "[%s]\n" % s_
+                    for o in OPTS:
+                        if o in ("clientuid", "ofxhome", "unclosedelements") or rnd.random() > 0.25:
+                            continue
+                        if o in BOOL_OPTS:
+                            text0 += "%s = %s\n" % (o, rnd.choice(["true", "yes", "on", "1", "True", "YES"]))
+                            file0[s_][o] = "true"
+                        elif o in LIST_OPTS:
+                            items = rnd.choice(LISTS)
+                            text0 += "%s = %s\n" % (o, rnd.choice([", ", ",", " , "]).join(items))
+                            file0[s_][o] = US.join(items)
+                        else:
+                            v0 = rnd.choice(POOL[o])
+                            text0 += "%s = %s\n" % (o, v0)
+                            file0[s_][o] = v0
+                    text0 += "\n"
+            if text0:
+                env.write_usercfg(text0)
         evs.append({"id": "h%d" % h, "op": "env", "opts": OPTS, "dflt": {o: cps(dflt[o]) for o in OPTS},
                     "fidb": {s: {o: cps(fidb[s].get(o, "")) for o in OPTS} for s in fidb},
                     "home": [{"id": cps(k), "url": cps(v.url or ""), "org": cps(v.org or ""), "fid": cps(v.fid or ""),
                               "brokerid": cps(v.brokerid or "")} for k, v in home.items()],
-                    "file": {s: {o: [] for o in OPTS} for s in ("srv1", "srv2")}})
+                    "file": {s: {o: cps(file0[s][o]) for o in OPTS} for s in ("srv1", "srv2")}})
         password = "S3cr3t-" + str(h)
         for step in range(rnd.randrange(2, 6)):
             srv = rnd.choice(["srv1", "srv1", "srv2"])
